@@ -126,6 +126,11 @@ func invalidClasses() []invClass {
 	add("recursive:map-idonly", reflect.TypeOf(recMap(nil)), "1")
 	cs = append(cs, invClass{Name: "recursive:map-thrift-tag", Fields: one(reflect.TypeOf(recMap(nil)), `thrift:"T,1,optional"`)})
 	add("recursive:map-of-map-noann", reflect.TypeOf(recKeyless(nil)), "1,default")
+	// the recursive named type one step below an unnamed type written at the field itself
+	add("recursive:map-in-unnamed-map-noann", reflect.TypeOf(map[int32]recMap(nil)), "1,default")
+	add("recursive:map-in-unnamed-map-of-map-noann", reflect.TypeOf(map[string]map[int64]recMap(nil)), "1")
+	add("recursive:map-behind-pointer-noann", reflect.TypeOf((*recMap)(nil)), "1,optional")
+	add("recursive:map-as-unnamed-map-key-value-noann", reflect.TypeOf(map[string]recKeyless(nil)), "1,default")
 	// annotations contradicting an anonymous struct
 	anon := reflect.TypeOf(struct {
 		A int32 `frugal:"1,default,i32"`
